@@ -3,7 +3,8 @@
 From FunV Require Import Base.Tac Model.BrokerModel Proofs.Broker_base Proofs.Broker_safety Proofs.Broker_order Proofs.Broker_live.
 
 (* unbuffered subscription channels; channel, unlimited or blocking-bounded buffer *)
-Definition lossless (c : cfg) : Prop := bufsz c = 0 /\ (chanb c = true \/ dpol c = PBlock).
+Definition lossless (c : cfg) : Prop :=
+  bufsz c = 0 /\ (chanb c = true \/ dpol c = PBlock) /\ inmod c = 0 /\ outmod c = 0.
 
 Definition pend_for (st : state) (s : sid) (m : msg) : Prop :=
   In m (dist st ++ lmsg (loop st)) \/
@@ -59,7 +60,9 @@ Lemma owed_step : forall st e st',
   step c wake st e = Some st' ->
   (live st' = true -> forall s m, ~ In s (unsubcalled st') -> In m (owed st' s) -> In m (log st' s) \/ pend_for st' s m).
 Proof.
-  intros st e st' UN SU OW H. destruct LL as [B0 BK]. unfold pend_for, log in *. step_inv H; ssimpl.
+  intros st e st' UN SU OW H. destruct LL as (B0 & BK & I0 & O0). unfold pend_for, log in *.
+  unfold step in H; rewrite ?I0, ?O0 in H; unfold passes in H; simpl in H.
+  step_inv H; ssimpl.
   all: repeat match goal with
        | E : loop _ = _ |- _ => rewrite E in *
        | E : dist _ = _ |- _ => rewrite E in *
